@@ -549,6 +549,9 @@ def format_datetime(format: str, value: datetime.datetime) -> str:
     if tzname is not None:
         tz += ":" + tzname
 
+    # strftime("%Y") does not zero-pad years below 1000 on every platform;
+    # OFX date-times always carry four year digits
+    format = format.replace("%Y", f"{value_bumped.year:04d}")
     return f"{value_bumped.strftime(format)}.{ms:03d}[{tz}]"
 
 
